@@ -252,6 +252,46 @@ def r3_ordered_children(ctx, sym, mod):
                   "pattern `a - b` matches `b - a`" if got == 'flex' else "pattern `a + b` no longer matches `b + a`")
 
 
+def astmap_session(sym, mod):
+    """An interpreter in which AstMap / AstSymbol / AstSymbolList of pedal.cait.ast_map are built by executing their own
+    constructors, and model CaitNodes pass the isinstance checks."""
+    from ..fdeval import module_resolver
+    map_cls, sym_cls = mod.cls('AstMap'), mod.cls('AstSymbol')
+    sl = sym.find_class(ASTMAP, 'AstSymbolList')
+    fd = FD(max_steps=400000, resolver=module_resolver(sym, mod))
+
+    def new_obj(clsnode, name):
+        def make(*a, **k):
+            o = Obj(name)
+            o.attrs['__classdef__'] = clsnode
+            init = [m for m in clsnode.body if isinstance(m, ast.FunctionDef) and m.name == '__init__']
+            if init:
+                fd.call_function(init[0], list(a), k, bound_self=o)
+            return o
+        return make
+    fd.calls['AstMap'] = new_obj(map_cls, 'AstMap')
+    fd.calls['AstSymbol'] = new_obj(sym_cls, 'AstSymbol')
+    fd.calls['AstSymbolList'] = new_obj(sl.node, 'AstSymbolList')
+
+    def b_isinstance(o, t):
+        ts = t if isinstance(t, tuple) else (t,)
+        for x in ts:
+            if x == 'CaitNode' and isinstance(o, Obj) and o._name.startswith('CaitNode'):
+                return True
+            if isinstance(x, str) and isinstance(o, Obj) and o._name == x:
+                return True
+            if isinstance(x, type) and not isinstance(o, Obj) and isinstance(o, x):
+                return True
+        return False
+    fd.calls['isinstance'] = b_isinstance
+    fd.calls['type'] = lambda o: o._name if isinstance(o, Obj) else type(o)
+    fd.calls['getattr'] = lambda o, n, *d: o.attrs[n] if isinstance(o, Obj) and n in o.attrs else (
+        d[0] if d else (_ for _ in ()).throw(Raised('AttributeError', n)))
+    inner = fd.resolver
+    fd.resolver = lambda n: 'CaitNode' if n == 'CaitNode' else inner(n)
+    return fd
+
+
 def r4_single_binding(ctx, sym):
     ctx.rule('R4', "add_x_to_sym_table (decision table by abstract interpretation) records a conflict whenever a "
                    "placeholder key is bound to symbols with different ids; merge_map_with re-adds every symbol of "
@@ -298,38 +338,7 @@ def r4_single_binding(ctx, sym):
         ctx.analysed_function(mod, mod.func('AstMap.' + name))
 
     def session():
-        fd = FD(max_steps=400000, resolver=module_resolver(sym, mod))
-
-        def new_obj(clsnode, name):
-            def make(*a, **k):
-                o = Obj(name)
-                o.attrs['__classdef__'] = clsnode
-                init = [m for m in clsnode.body if isinstance(m, ast.FunctionDef) and m.name == '__init__']
-                if init:
-                    fd.call_function(init[0], list(a), k, bound_self=o)
-                return o
-            return make
-        fd.calls['AstMap'] = new_obj(map_cls, 'AstMap')
-        fd.calls['AstSymbol'] = new_obj(sym_cls, 'AstSymbol')
-        fd.calls['AstSymbolList'] = new_obj(sl.node, 'AstSymbolList')
-
-        def b_isinstance(o, t):
-            ts = t if isinstance(t, tuple) else (t,)
-            for x in ts:
-                if x == 'CaitNode' and isinstance(o, Obj) and o._name.startswith('CaitNode'):
-                    return True
-                if isinstance(x, str) and isinstance(o, Obj) and o._name == x:
-                    return True
-                if isinstance(x, type) and not isinstance(o, Obj) and isinstance(o, x):
-                    return True
-            return False
-        fd.calls['isinstance'] = b_isinstance
-        fd.calls['type'] = lambda o: o._name if isinstance(o, Obj) else type(o)
-        fd.calls['getattr'] = lambda o, n, *d: o.attrs[n] if isinstance(o, Obj) and n in o.attrs else (
-            d[0] if d else (_ for _ in ()).throw(Raised('AttributeError', n)))
-        inner = fd.resolver
-        fd.resolver = lambda n: 'CaitNode' if n == 'CaitNode' else inner(n)
-        return fd
+        return astmap_session(sym, mod)
 
     def student(name):
         return Obj('CaitNode<%s>' % name, ast_name='Name', astNode=Obj('ast.Name', _id=name, id=name), _id=name,
